@@ -1,7 +1,7 @@
 /-
 C18 — property theorems for the service lifecycle: `SignalHandler.Handle / shutdown` and the
 `RefreshWorker` loop (models in `Model/C18.lean`, observation functions and helper lemmas in
-`Lemmas/C18.lean`, expected skeletons in `Model/C18Skel.lean`).
+`Lemmas/C18.lean`, expected event graphs in `Model/C18Skel.lean`).
 Only property theorems and non-vacuity examples live here.
 
 Every theorem quantifies over ALL outcome vectors / signal sequences / environments (schedule
@@ -17,29 +17,22 @@ namespace GolibsVerif.C18
 open GolibsVerif.Gen.Consts (ExitCodeSuccess ExitCodeFailure)
 
 /-! ## The regenerated tie: the code still has the synchronisation structure the models were
-written against -/
+written against
+
+The objects compared are event graphs in normal form (`Go/Skel.lean`, `gen/syncskel.go`) of
+the four ENTRY POINTS, with every function of their own package inlined: `skel_handle` covers
+`Handle`, `shutdown`, `shutdownService`; `skel_start` covers `Start`, `refreshInALoop`,
+`refresh`; `skel_workerShutdown` covers `Shutdown`, `refresh`; `skel_isShutdownSignal` covers
+`IsShutdownSignal`, `isShutdownSignal`. -/
 
 theorem skel_handle :
     Gen.SyncSkel.service_SignalHandler_Handle = Expected.service_SignalHandler_Handle := by decide
 
-theorem skel_shutdown :
-    Gen.SyncSkel.service_SignalHandler_shutdown = Expected.service_SignalHandler_shutdown := by decide
-
-theorem skel_shutdownService :
-    Gen.SyncSkel.service_shutdownService = Expected.service_shutdownService := by decide
-
 theorem skel_isShutdownSignal :
-    Gen.SyncSkel.osutil_isShutdownSignal = Expected.osutil_isShutdownSignal := by decide
+    Gen.SyncSkel.osutil_IsShutdownSignal = Expected.osutil_IsShutdownSignal := by decide
 
 theorem skel_start :
     Gen.SyncSkel.service_RefreshWorker_Start = Expected.service_RefreshWorker_Start := by decide
-
-theorem skel_refreshInALoop :
-    Gen.SyncSkel.service_RefreshWorker_refreshInALoop = Expected.service_RefreshWorker_refreshInALoop := by
-  decide
-
-theorem skel_refresh :
-    Gen.SyncSkel.service_RefreshWorker_refresh = Expected.service_RefreshWorker_refresh := by decide
 
 theorem skel_workerShutdown :
     Gen.SyncSkel.service_RefreshWorker_Shutdown = Expected.service_RefreshWorker_Shutdown := by decide
